@@ -8,6 +8,7 @@ import (
 	"fmt"
 	"sort"
 	"strings"
+	"sync"
 
 	"github.com/ipfs/go-cid"
 	"github.com/multiformats/go-multihash"
@@ -17,6 +18,7 @@ import (
 	"github.com/ucan-wg/go-ucan/token/invocation"
 
 	"verifharness/engine"
+	"verifharness/fixtures"
 )
 
 var c17Pool = []string{"dlg", "inv", "dlg2", "inv2"}
@@ -554,13 +556,125 @@ func c17RawCarSub() *engine.Sub {
 
 var _ = base64.StdEncoding
 
+// ---- container sizes across the CBOR head-width boundaries ----
+
+type c17CountCase struct {
+	N       int    `json:"n"`
+	Format  string `json:"format"`
+	WStream bool   `json:"w_stream"`
+	RStream bool   `json:"r_stream"`
+}
+
+func (c *c17CountCase) Weight() int { return c.N }
+
+var (
+	c17ManyOnce sync.Once
+	c17Many     []sealedTok
+)
+
+// c17ManyTokens returns 300 distinct sealed Ed25519 delegations (distinct nonces and commands).
+func c17ManyTokens() []sealedTok {
+	c17ManyOnce.Do(func() {
+		k := fixtures.Get("ed25519", 0)
+		for i := 0; i < 300; i++ {
+			nonce := []byte(fmt.Sprintf("count-nonce-%04d", i))
+			t, err := delegation.New(k.DID, otherPrincipal(k, 1), commandOf(fmt.Sprintf("/n/%d", i)), nil, delegation.WithSubject(k.DID), delegation.WithNonce(nonce))
+			if err != nil {
+				panic(err)
+			}
+			b, c, err := t.ToSealed(k.Priv)
+			if err != nil {
+				panic(err)
+			}
+			c17Many = append(c17Many, sealedTok{Tok: t, Sealed: b, Cid: c})
+		}
+	})
+	return c17Many
+}
+
+func c17CountSub() *engine.Sub {
+	return &engine.Sub{
+		Name: "token-count-boundaries",
+		Rule: "containers holding exactly n distinct tokens for every n in 0..40 and around the CBOR / varint width boundaries (23|24, 127|128, 255|256) x 4 formats x writer {bytes, stream} x reader {bytes, stream}: the reader holds exactly the n tokens added, each under the reference CID of its sealed bytes; non-trivial = n > 0",
+		Bound: func(t string) string { return "n in {0..40, 126..130, 254..258" + map[bool]string{true: ", 299", false: ""}[t == "thorough"] + "} x 4 formats x 2 writers x 2 readers" },
+		Gen: func(tier string, emit func(any) bool) {
+			var ns []int
+			for n := 0; n <= 40; n++ {
+				ns = append(ns, n)
+			}
+			ns = append(ns, 126, 127, 128, 129, 130, 254, 255, 256, 257, 258)
+			if tier == "thorough" {
+				ns = append(ns, 299)
+			}
+			for _, n := range ns {
+				for _, f := range []string{"car", "car64", "cbor", "cbor64"} {
+					for _, ws := range []bool{false, true} {
+						for _, rs := range []bool{false, true} {
+							if n > 40 && ws != rs {
+								continue // the large sizes use the matched variants only
+							}
+							if !emit(&c17CountCase{N: n, Format: f, WStream: ws, RStream: rs}) {
+								return
+							}
+						}
+					}
+				}
+			}
+		},
+		NewCase: func() any { return &c17CountCase{} },
+		Run: func(ctx *engine.Ctx, c any) {
+			cs := c.(*c17CountCase)
+			toks := c17ManyTokens()[:cs.N]
+			w := container.NewWriter()
+			for _, t := range toks {
+				w.AddSealed(t.Cid, t.Sealed)
+			}
+			ctx.States(1)
+			ctx.Eval(2)
+			ctx.Trans(1)
+			if cs.N > 0 {
+				ctx.Nontrivial(1)
+			}
+			data, err := writeContainer(w, cs.Format, cs.WStream)
+			if err != nil {
+				ctx.Outcome("write-error")
+				ctx.Failf(cs, "write-fails/"+cs.Format, "writing %d tokens as %s (stream=%v) fails: %v", cs.N, cs.Format, cs.WStream, err)
+				return
+			}
+			r, err := readContainer(data, cs.Format, cs.RStream)
+			if err != nil {
+				ctx.Outcome("read-error")
+				ctx.Failf(cs, "read-fails/"+cs.Format, "reading back a %s container of %d tokens (w-stream=%v r-stream=%v) fails: %v", cs.Format, cs.N, cs.WStream, cs.RStream, err)
+				return
+			}
+			if len(r) != cs.N {
+				ctx.Outcome("set-differs")
+				ctx.Failf(cs, "roundtrip-set-differs/"+cs.Format, "a %s container of %d tokens reads back with %d entries", cs.Format, cs.N, len(r))
+				return
+			}
+			for i, t := range toks {
+				if refCID(t.Sealed) != t.Cid {
+					panic("harness: reference CID differs from the sealing CID")
+				}
+				got, err := r.GetToken(t.Cid)
+				if err != nil || viewString(got, nil) != viewString(t.Tok, nil) {
+					ctx.Outcome("set-differs")
+					ctx.Failf(cs, "roundtrip-set-differs/"+cs.Format, "token #%d of %d is missing or differs after a %s round trip: %v", i, cs.N, cs.Format, err)
+					return
+				}
+			}
+			ctx.Outcome("roundtrip-ok")
+		},
+	}
+}
+
 func C17() *engine.Check {
 	return &engine.Check{
 		Property: "C17",
 		Level:    "model_checking",
-		Subs:     []*engine.Sub{c17RoundtripSub(), c17CorruptSub(), c17WrongCidSub(), c17RawCarSub(), c17SeqSub()},
+		Subs:     []*engine.Sub{c17RoundtripSub(), c17CountSub(), c17CorruptSub(), c17WrongCidSub(), c17RawCarSub(), c17SeqSub()},
 		Assumptions: []string{
-			"token pool of 4 sealed tokens (3 signature algorithms); 'every finite set' is covered for sets of up to 4 tokens",
+			"token pool of 4 sealed tokens (3 signature algorithms): every subset in every insertion order; plus sets of n distinct Ed25519 delegations for every n up to 40 and around 128 and 256",
 			"the CBOR container format does not store CIDs, so a wrong CID given to AddSealed is invisible there; only CAR readers can and must detect a CID that does not hash to the data",
 		},
 	}
